@@ -278,7 +278,24 @@ Section Counter.
   Definition title_heading (te : elem) : option text :=
     match parent te with Some h => Some h | None => Some (etext te) end.
 
+  (** [section_tokens] (after fix_graph_budget_joined): the per-element sum only for a counter
+      that declares itself additive over the join separator, otherwise the count of the
+      joined text [make_chunk] will emit — the same rule [chunk] follows since #435 *)
+  Definition section_tokens (sec : list elem) : N :=
+    if additive then sumN (map (fun e => count (display e)) sec) else count (chunk_text sec).
+
   Definition section_chunks (c : cfg) (ps : list (option N)) (es : list elem)
+             (t : N * elem) : list chunk :=
+    let '(ti, te) := t in
+    let th := title_heading te in
+    let sec := te :: select ti ps es in
+    if section_tokens sec <=? max_tokens c
+    then [mk_chunk sec th false]
+    else map (set_heading th) (chunk_seq c sec).
+
+  (** the code before fix_graph_budget_joined (pinned tree): the per-element sum for every
+      counter.  Kept only as the subject of [graph_budget_pinned_refuted]. *)
+  Definition section_chunks_pinned (c : cfg) (ps : list (option N)) (es : list elem)
              (t : N * elem) : list chunk :=
     let '(ti, te) := t in
     let th := title_heading te in
@@ -303,6 +320,13 @@ Section Counter.
     let pre := preamble es in
     (if isnil pre then [] else chunk_seq c pre)
       ++ flat_map (section_chunks c ps es) (titles_of es).
+
+  Definition chunk_graph_pinned (c : cfg) (es : list elem) : list chunk :=
+    if isnil es then [] else
+    let ps := parents_from 0 [] es in
+    let pre := preamble es in
+    (if isnil pre then [] else chunk_seq c pre)
+      ++ flat_map (section_chunks_pinned c ps es) (titles_of es).
 End Counter.
 
 (** * The concrete counters of the correspondence (implemented identically in the harness
@@ -429,16 +453,11 @@ Definition gather (es : list elem) : list elem :=
   let ps := parents_from 0 [] es in
   preamble es ++ flat_map (fun t : N * elem => snd t :: select (fst t) ps es) (titles_of es).
 
-(** known class C14-graph-budget-sum: a whole-section chunk approved by the per-element sum *)
-Definition graph_budget_known (cnt : text -> N) (mx : N) (c : chunk) : bool :=
-  negb (oversized c) && (tokens c =? cnt (chunk_text (celems c)))
-  && (sumN (map (fun e => cnt (display e)) (celems c)) <=? mx)
-  && match celems c with t :: _ :: _ => is_title t | _ => false end.
-
 (** failure code: 1 model<>impl; 2 partition; 4 budget; 8 heading;
     16 partition fails only by the known graph class (input not well-sectioned, output is a
-       faithful partition of the gathered sections);
-    32 budget fails only on known-class chunks (graph entry, counter not additive) *)
+       faithful partition of the gathered sections).
+    (32 was the class of C14-graph-budget-sum, fixed by fix_graph_budget_joined: any budget
+     failure is now bit 4.) *)
 Definition case_code (k : case) : N :=
   let '(c, cid, entry, es, oimpl) := k in
   let impl := map (resolve_chunk es) oimpl in
@@ -451,10 +470,7 @@ Definition case_code (k : case) : N :=
     else 2 in
   let bad_budget := filter (fun ch => negb (budget_b cnt (max_tokens c) ch)) impl in
   let budget_code :=
-    if isnil bad_budget then 0
-    else if (entry =? 1) && negb add
-            && forallb (graph_budget_known cnt (max_tokens c)) bad_budget then 32
-    else 4 in
+    if isnil bad_budget then 0 else 4 in
   let head_ok :=
     if entry =? 0 then forallb (heading_seq_b (propagate c)) impl
     else negb (title_consistent es) || forallb (heading_graph_b (propagate c)) impl in
